@@ -51,6 +51,9 @@ TEMPLATES = {
     "relogin_epsv_data": LOGIN + [["epsv"], ["data"], ["login"], ["epsv"], ["data"], ["xfer", "RETR", "/f.bin"], ["login"], ["quit"]],
     "relogin_cut": LOGIN + [["pasv"], ["login"], ["cut", "rst"]],
     "pipe_pasv_cut": LOGIN + [["pipeline", ["PASV", "EPSV"]], ["cut", "rst"]],
+    # EPSV with a network protocol argument (RFC 2428: 1 = IPv4, 2 = IPv6, anything else), refused or not, before any listener
+    "epsv_args": LOGIN + [["cmd", "EPSV 2"], ["cmd", "EPSV 1"], ["cmd", "EPSV ALL"], ["cmd", "EPSV 3"], ["quit"]],
+    "epsv_arg_then_cut": LOGIN + [["cmd", "EPSV 2"], ["cmd", "EPSV 2"], ["cut", "rst"]],
 }
 # a server without anonymous fall-back: a second USER with an unknown name is rejected (530) and leaves the session without a user
 ALICE = [["connect"], ["login", "alice", "pw"]]
